@@ -180,6 +180,14 @@ func (c *FileCache[MetadataT]) Cache(key CacheKey, data io.Reader, expires time.
 	lock.Lock()
 	defer lock.Unlock()
 
+	// Remove a previous entry for this key first. This keeps the counters right on
+	// overwrite and unlinks the old file instead of truncating it in place, so readers
+	// that still hold it open keep reading the old version to its end.
+	if err := c.ensureRemove(key); err != nil {
+		metrics.Global.Cache.CacheErrors.Increment()
+		return nil, err
+	}
+
 	fileName := filepath.Join(c.rootDir.Path, key.Hex)
 	file, err := os.Create(fileName)
 	if err != nil {
